@@ -444,7 +444,7 @@ def mt_cases(prop, scenario, tier, seed, n_baton=None, n_par=None, n_tsan=None, 
     for i in range(n_baton):
         v = "rel-h" if i % 2 == 0 else "dbg-h"
         pol = rnd.choice(["targeted", "targeted", "uniform", "pct"])
-        extra = gen_b(rnd) + ["--policy", pol, "--spurious", rnd.choice([0, 4, 8, 16])]
+        extra = gen_b(rnd) + ["--policy", pol, "--spurious", rnd.choice([0, 4, 8, 16]), "--tso", rnd.choice([0, 0, 2, 4])]      # --tso: simulated store buffer (store -> load reordering)
         if pol == "targeted": extra += ["--p-hot", rnd.choice([2, 2, 3]), "--p-other", rnd.choice([8, 16, 32])]
         elif pol == "uniform": extra += ["--p-other", rnd.choice([2, 4, 8, 32])]
         else: extra += ["--pct-depth", rnd.choice([1, 2, 3]), "--pct-steps", rnd.choice([3000, 20000, 100000])]
@@ -475,6 +475,7 @@ def mt_cov(cases):
         "distinct_baton_schedules": len(hashes),
         "schedule_points": sm("sched", "points"), "context_switches": sm("sched", "switches"), "forced_switches_at_yield_points": sm("sched", "forced"), "spurious_weak_cas_failures": sm("sched", "spurious_cas"),
         "injected_delays": sm("sched", "delays"),
+        "stores_kept_in_the_simulated_store_buffer": sm("sched", "delayed_stores"), "loads_that_overtook_a_buffered_store": sm("sched", "loads_overtaking"),
         "points_and_switches_per_function": top,
         "allocations": sm("mt", "allocs"), "local_frees": sm("mt", "local_frees"), "remote_frees": sm("mt", "remote_frees"), "handovers": sm("mt", "sends"), "pattern_verifications": sm("mt", "verified"),
         "events_replayed_by_lifetime_checker": sm("mt", "events"), "collects": sm("mt", "collects"), "thread_exits": sm("mt", "thread_exits"), "heap_deletes_racing_frees": sm("mt", "heap_deletes"),
@@ -543,7 +544,7 @@ def tiny_cov(cases):
             "tiny_distinct_schedules": len(set((c.meta["seed"], c.result["sched"]["hash"]) for c in ok)),
             "tiny_program_shapes": sorted(set(c.result["tiny"]["desc"] for c in ok))[:40]}
 
-MT_ASSUME = ["baton mode explores sequentially consistent interleavings at the allocator's atomic operations (incl. spurious weak-CAS failure); weaker hardware orderings are visible only as ThreadSanitizer reports",
+MT_ASSUME = ["baton mode explores interleavings at the allocator's atomic operations (incl. spurious weak-CAS failure) that are sequentially consistent except for one modelled relaxation: in half of the cases a non-seq_cst atomic store may stay in a simulated per-thread store buffer while up to 2 following atomic loads of that thread execute (store->load reordering as on x86-TSO; at most one buffered store per thread; flushed before any other atomic operation, a load of the same location, and the return of every allocator call); other weak-memory effects are visible only as ThreadSanitizer reports or in the real parallel runs",
              "the schedule controller only decides who runs when: every schedule is an execution the program can have", "only the executions listed were explored"]
 
 def mt_sample(c):
